@@ -26,7 +26,7 @@ Apply ==
       [] Ev.e = "Exit"     -> OnExit(C, m, Ev.t, Ev.st)
       [] Ev.e = "Success"  -> OnSuccessLine(C, m, Ev.t)
       [] Ev.e = "Failed"   -> OnFailedLine(C, m, Ev.t, Ev.syncfail)
-      [] Ev.e = "Kill"     -> OnKill(C, m, Ev.t, Ev.sig, Ev.foreign)
+      [] Ev.e = "Kill"     -> OnKill(C, m, Ev.t, Ev.sig, Ev.foreign, Ev.grp)
       [] Ev.e = "Abort"    -> OnAbort(C, m, SetOf(Ev.live))
       [] Ev.e = "Row"      -> OnRow(C, m, Ev.t, Ev.ts)
       [] Ev.e = "Return"   -> OnReturn(C, m, Ev.exit, Ev.hang, Ev.stderr, SetOf(Ev.failed), SetOf(Ev.skipped),
